@@ -263,3 +263,133 @@ def bytes_scenario(rng, size='quick', **over):
         lines += [f'r {kk}', f'ram {kk}']
     lines.append('blobsum')
     return lines
+
+
+def sync_scenario(rng, size='quick', **over):
+    """C12: every dirty-byte limit; the complete trace of file operations and the file counters after every step"""
+    limit = rng.choice([0, 1, 100, 4096, 100000, 33554432])
+    c, line = cfg_line(rng, dup=1, dirty=limit, **over)
+    klen = c['key']
+    keys = mk_keys(rng, klen, 3)
+    lines = [line, 'states', 'trace', 'fstates']
+    seed = 1
+    n = rng.randint(5, 12) if size == 'quick' else rng.randint(10, 40)
+    for _ in range(n):
+        x = rng.random()
+        if x < 0.5:
+            ln = rng.choice([0, 10, 10, 300, 5000, 100000])
+            lines.append(f'w {rng.choice(keys)} {rng.choice(TS_POOL)} {rng.choice(METAS_W)} {ln} {seed % 250 + 1}')
+            seed += 1
+        elif x < 0.6:
+            lines.append(f'd {rng.choice(keys)} {rng.choice(TS_POOL)} - {rng.choice([0, 1])}')
+        elif x < 0.72:
+            lines.append('fsync')
+        elif x < 0.95:
+            lines.append(rng.choice(['close_active', 'create_active', 'restore_active', 'force always', 'settle',
+                                     'close_active_bg', 'free']))
+        else:
+            lines.append(rng.choice(['restart', 'restart lazy']))
+        lines += ['states', 'trace', 'fstates']
+    lines += ['settle', 'trace', 'fstates', 'close', 'trace', 'open', 'trace', 'fstates']
+    return lines
+
+
+def harm_scenario(rng, size='quick', **over):
+    """C07: histories with restarts, quarantines (damaged blob files between sessions) and index damage; byte
+    snapshots of every blob file after every step; traces; queries at quiescent points"""
+    c, line = cfg_line(rng, dup=1, **over)
+    klen = c['key']
+    keys = mk_keys(rng, klen, 3)
+    absent = absent_keys(rng, klen, keys)
+    lines = [line, 'states', 'snap', 'trace']
+    seed = 1
+    n = rng.randint(6, 14) if size == 'quick' else rng.randint(10, 40)
+    nblobs = 1
+    damaged = False
+    for _ in range(n):
+        x = rng.random()
+        if x < 0.45:
+            lines.append(f'w {rng.choice(keys)} {rng.choice(TS_POOL)} {rng.choice(METAS_W)} {rng.choice([0, 10, 300, 5000])} {seed % 250 + 1}')
+            seed += 1
+        elif x < 0.55:
+            lines.append(f'd {rng.choice(keys)} {rng.choice(TS_POOL)} - {rng.choice([0, 1])}')
+        elif x < 0.8:
+            op = rng.choice(['close_active', 'create_active', 'restore_active', 'force always', 'force always', 'settle'])
+            if op in ('create_active', 'force always'):
+                nblobs += 1
+            lines.append(op)
+        elif x < 0.9:
+            lines.append(rng.choice(['restart', 'restart lazy']))
+        else:
+            # damage a blob file (and drop its index) between two sessions: quarantine at the next start
+            if not damaged:
+                lines.append('nomodel')
+                damaged = True
+            bid = rng.randrange(0, nblobs + 1) if rng.random() < 0.5 else nblobs - 1
+            kind = rng.choice(['magic', 'hflip:0', 'hflip:1', f'cut:{rng.choice([1, 5, 30])}', 'dflip:0'])
+            lines.append(f'restart bdmg={max(bid, 0)}:{kind}')
+        lines += ['states', 'snap']
+        if rng.random() < 0.3:
+            lines += ['settle', 'trace'] + queries('c01', keys, absent[:1]) + [f'ram {keys[0]}', 'counts', 'trace q']
+    lines += ['restart', 'states', 'snap', 'force always', 'states', 'snap', 'trace']
+    return lines
+
+
+def nat_key(klen, n):
+    return n.to_bytes(klen, 'big').hex()
+
+
+def index_scenario(rng, size='quick', **over):
+    """C09: header multisets of systematic shapes written into one blob, dumped to a B+tree index file, queried
+    through the file for every present key and for absent keys below / between / above, loaded back"""
+    klen = rng.choice([1, 4, 8, 33, 128, 128, 1000, 1000]) if size != 'quick' else rng.choice([1, 4, 33, 128, 1000])
+    c, line = cfg_line(rng, key=klen, dup=1, rt='mt', **over)
+    rhs = 57 + klen
+    per_block = 4096 // rhs
+    fan = (4096 - 16) // (klen + 8) + 1
+    # number of keys: from a single key up to several tree levels where the key length makes that cheap
+    if klen >= 1000:
+        nkeys = rng.choice([1, 2, 3, 4, fan, fan + 1, fan * fan + 2, 3 * fan * fan]) if size != 'quick' else rng.choice([1, 3, fan + 1, fan * fan + 2])
+    elif klen >= 128:
+        nkeys = rng.choice([1, 2, per_block, per_block + 1, fan + 2, 2 * fan * per_block // 3]) if size != 'quick' else rng.choice([1, per_block + 1, fan + 2])
+    else:
+        nkeys = rng.choice([1, 2, 3, per_block - 1, per_block, per_block + 1, 3 * per_block + 1])
+    base = rng.randrange(1, 50)
+    nkeys = max(1, min(nkeys, (256 ** klen - base - 9) // 2, 4000))
+    stride = 2
+    present = [base + stride * i for i in range(nkeys)]
+    run_choices = [1, 1, 1, 2, 3]
+    if klen < 1000 or size != 'quick':
+        run_choices += [per_block - 1, per_block, per_block + 1]
+    if size != 'quick' and klen >= 33:
+        run_choices += [3 * per_block]
+    lines = [line, 'states']
+    seed = 1
+    order = []
+    special = set(rng.sample(range(nkeys), min(nkeys, 3)))
+    for i, k in enumerate(present):
+        n = rng.choice(run_choices) if i in special else rng.choice([1, 1, 1, 2])
+        for _ in range(n):
+            order.append(k)
+    rng.shuffle(order)
+    for k in order:
+        kh = nat_key(klen, k)
+        if rng.random() < 0.08:
+            lines.append(f'd {kh} {rng.choice(TS_POOL)} - 0')
+        else:
+            lines.append(f'w {kh} {rng.choice(TS_POOL)} - {rng.choice([0, 0, 3])} {seed % 250 + 1}')
+            seed += 1
+        lines.append('states')
+    lines += ['close_active', 'states', 'settle', 'res', 'indexsum', 'counts']
+    sample = present if len(present) <= 30 else rng.sample(present, 30)
+    absent = [base - 1, present[-1] + 1, present[-1] + 7] + [k + 1 for k in (sample[:5])]
+    qs = []
+    for k in sample + absent:
+        if 0 <= k < 256 ** klen:
+            kh = nat_key(klen, k)
+            qs += [f'c {kh}', f'ram {kh}']
+    lines += qs
+    # load back: the blob becomes active again (index read from the file), then is extended and dumped again
+    lines += ['restart', 'states', 'res'] + qs[:20]
+    lines += [f'w {nat_key(klen, present[0])} 9 - 1 {seed % 250 + 1}', 'states', 'close_active', 'states', 'settle', 'indexsum', 'counts'] + qs[:10]
+    return lines
